@@ -101,7 +101,7 @@ def gen(c):
 
     def offer(what, r, s, sigbytes, pubkey=P, ctx_id=ident, ctx_msg=msg, dg=e_bytes, ifaces=("dgst", "ctx", "do")):
         for iface in ifaces:
-            if iface == "do" and (sigbytes is not None and what.split(":")[0] not in ("rs", "flip_do", "valid", "degenerate")):
+            if iface == "do" and (sigbytes is not None and what.split(":")[0] not in ("rs", "flip_do", "valid", "degenerate") and not what.startswith("flip:dgst")):
                 continue
             tt, zz, ee = (t_ctx, z, e_bytes) if (pubkey == P and ctx_id == ident and ctx_msg == msg) else tab_for_digest(ctx_id, pubkey, ctx_msg)
             e_used = ee if iface == "ctx" else dg
@@ -153,6 +153,13 @@ def gen(c):
                     continue
             PP = mul(dd, G)
             offer("degenerate:%s" % tag, rr, ss, seq(dint(rr), dint(ss)), pubkey=PP, dg=i2b(ee2), ifaces=("dgst", "do"))
+            if tag == "sG_equals_minus_tP":
+                # the same with r = e: a verifier that reads the x-coordinate of the point at infinity as 0 then finds r' = e + 0 = r.  There is no such coordinate, the
+                # equations do not hold (only the key holder can make this pair, with the 'nonce' k = 0)
+                r2 = ee2 % n
+                s2 = (-r2 * dd) * pow(1 + dd, -1, n) % n
+                if r2 and s2 and (r2 + s2) % n:
+                    offer("degenerate:k_is_zero", r2, s2, seq(dint(r2), dint(s2)), pubkey=PP, dg=i2b(ee2), ifaces=("dgst", "do"))
     for rn, rv in scalar_classes.items():
         for sn, sv in scalar_classes.items():
             r, s = (r0 if rv is None else rv), (s0 if sv is None else sv)
@@ -201,6 +208,10 @@ def gen(c):
         Q = (b2i(pb[:32]), b2i(pb[32:]))
         if on_curve(Q):
             offer("flip:pub:bit%d" % bit, r0, s0, good, pubkey=Q)
+    # every bit of the digest: a signature is for one e only (the last limb too)
+    for bit in (range(256) if not c.quick else list(range(0, 256, 5)) + [255, 254, 193, 192, 191, 129, 128, 127, 65, 64, 63, 1]):
+        eb = bytearray(e_bytes); eb[31 - bit // 8] ^= 1 << (bit % 8)
+        offer("flip:dgst:bit%d" % bit, r0, s0, good, dg=bytes(eb), ifaces=("dgst", "do"))
     # ---- signing through every interface ----
     for iface, reps in (("dgst", 3), ("do", 3), ("fixlen", 3), ("ctx", 40 if c.quick else 70)):
         for trial in range(2 if iface != "ctx" else 1):
